@@ -159,10 +159,27 @@ def check(rep, ctx):
                             issues = [("T-?", "time conversion not understood", "")]
                         rep.check(R_E, not issues, construct=f"kio.serial.{side}:{name}", stmt=timeflow.show(d["conv"]),
                                   message="; ".join(f"{r}: {m}" for r, m, _ in issues), file=file, line=rec["line"])
+    # every raw read of the readers module is a checked exact read ---------------------------------------------
+    R_X = rep.rule("C11-exact-reads", "every read in kio.serial.readers is length-checked with equality before its bytes are used", floor=1,
+                   necessary_because="read(n) with a negative n returns everything up to EOF; `len(value) < n` never fires, so 'ff fe hello' "
+                                     "decodes as the string 'hello' instead of being rejected")
+    seen_reads = 0
+    for key, cnt in A.log.items():
+        d_, kind, skind, site, detail = key
+        if kind == "read" and site.startswith("kio.serial.readers"):
+            seen_reads += 1
+            from .streams import site_loc, stmt_at
+            where, fn_ = site_loc(ctx, site)
+            rep.check(R_X, "unchecked-used" not in detail, construct=fn_, stmt=stmt_at(ctx, site),
+                      message=f"the bytes of this read are used without establishing len(result) == requested size ({detail})",
+                      instance=f"{site}|{detail}", **where)
     # varints, bit level --------------------------------------------------------------------------------
     ratoms = {(a["fn"], a["max_bytes"]): a for a in A.atoms.values() if a and a["kind"] == "varint"}
     watoms = [a for a in A.atoms.values() if a and a["kind"] == "wvarint"]
     if not ratoms or not watoms:
+        if rep.findings:
+            rep.note("no varint reader / writer recognised (reported after the concrete findings above)")
+            return
         raise AnalysisError("anchor vanished: no varint reader / writer recognised in kio.serial.readers/writers")
     for (fn, mx), a in sorted(ratoms.items()):
         pr = varint.check_varint_reader(a)
